@@ -432,6 +432,24 @@ MAX_PATHS = int(os.environ.get("PYVC_MAX_PATHS", "4000"))
 BRANCH_TIMEOUT_MS = 3000
 
 
+class PCList(list):
+    """path condition: a list that keeps every term ever appended alive for the whole path, so that z3 AST ids
+    (used as cache keys) are never reused by later terms after an entry has been removed again"""
+
+    def __init__(self, *a):
+        super().__init__(*a)
+        self.keep = list(self)
+
+    def append(self, x):
+        self.keep.append(x)
+        super().append(x)
+
+    def extend(self, xs):
+        xs = list(xs)
+        self.keep.extend(xs)
+        super().extend(xs)
+
+
 class Engine:
     """One Engine verifies one FUC against its contract."""
 
@@ -454,7 +472,8 @@ class Engine:
     def _reset_path(self, prefix):
         self.prefix = list(prefix)
         self.dpos = 0
-        self.pc = []
+        self.pc = PCList()
+        self._keep = []
         self.heap = {}
         self.next_id = 1
         self.sym_counter = {}
@@ -469,6 +488,10 @@ class Engine:
         self.index_terms = []
         self._index_keys = set()
         self._byte_facts = set()
+        self._isolver = None
+        self._isolver_ids = []
+        self._known_cache = {}
+        self._known_sig = {}
         self.segments = {}  # ostream id -> [(producer, appended segment)] in program order on this path
         self.ctx_mode = "prove"
         self.seq_facts = {}
@@ -595,6 +618,16 @@ class Engine:
             a, b = t.arg(0), t.arg(1)
             if not z3.is_seq(a):
                 return
+            if not z3.is_app_of(a, z3.Z3_OP_SEQ_CONCAT) and not z3.is_app_of(b, z3.Z3_OP_SEQ_CONCAT):
+                # X == Y: facts recorded for one sequence are instantiated on reads of the other as well
+                ia, ib = a.get_id(), b.get_id()
+                self._keep.extend([a, b])
+                la = self.seq_facts.setdefault(ia, [])
+                lb = self.seq_facts.get(ib)
+                if lb is not None and lb is not la:
+                    la.extend(x for x in lb if x not in la)
+                self.seq_facts[ib] = la
+                return
             if z3.is_app_of(a, z3.Z3_OP_SEQ_CONCAT) and not z3.is_app_of(b, z3.Z3_OP_SEQ_CONCAT):
                 a, b = b, a
             if not (z3.is_const(a) and a.decl().kind() == z3.Z3_OP_UNINTERPRETED and z3.is_app_of(b, z3.Z3_OP_SEQ_CONCAT)):
@@ -620,6 +653,7 @@ class Engine:
         k = e.get_id()
         if k not in self._byte_facts:
             self._byte_facts.add(k)
+            self._keep.append(e)
             self.pc.append(z3.And(e >= 0, e < 256))
 
     def add_index_term(self, t):
@@ -766,16 +800,51 @@ class Engine:
         return vals[0]
 
     def prove_now(self, f, timeout_ms=2000):
-        """quick internal entailment check PC |= f (used for engine-internal simplifications only)"""
+        """quick internal entailment check PC |= f (used for engine-internal simplifications only).
+        Uses one incremental solver per path that mirrors the path condition (push/pop per assertion)."""
         f = V.simplify_bool(f)
         if isinstance(f, bool):
             return f
-        s = z3.Solver()
+        key = f.t.get_id()
+        self._keep.append(f)
+        hit = self._known_cache.get(key)
+        if hit is not None and hit[0] <= len(self.pc) and self._pc_hash(hit[0]) == hit[1]:
+            return True  # proved under a path condition that is still a prefix of the current one
+        s = self._sync_isolver()
         s.set("timeout", timeout_ms)
-        for t in self.pc:
-            s.add(t)
+        s.push()
         s.add(z3.Not(f.t))
-        return s.check() == z3.unsat
+        r = s.check()
+        s.pop()
+        self.stats["branch_checks"] += 1
+        if r == z3.unsat:
+            n = len(self.pc)
+            self._known_cache[key] = (n, self._pc_hash(n))
+            return True
+        return False
+
+    def _pc_hash(self, n):
+        return hash(tuple(t.get_id() for t in self.pc[:n]))
+
+    def _sync_isolver(self):
+        s = self._isolver
+        if s is None:
+            s = self._isolver = z3.Solver()
+            self._isolver_ids = []
+        ids = self._isolver_ids
+        pc = self.pc
+        common = 0
+        m = min(len(ids), len(pc))
+        while common < m and ids[common] == pc[common].get_id():
+            common += 1
+        if common < len(ids):
+            s.pop(len(ids) - common)
+            del ids[common:]
+        for t in pc[common:]:
+            s.push()
+            s.add(t)
+            ids.append(t.get_id())
+        return s
 
     # ---------------- quantified facts about sequence elements -----------------
     def register_forall(self, fa):
@@ -793,6 +862,7 @@ class Engine:
                 if f is not True:
                     self.assume(f)
             return
+        self._keep.append(over)
         self.seq_facts.setdefault(over.t.get_id(), []).append((fa.fn, fa.trigger))
 
     def on_nth(self, ss, i):
@@ -800,6 +870,8 @@ class Engine:
         if not facts or self._in_inst >= 3:
             return
         iid = i.t.get_id() if is_sym(i) else ("c", i)
+        self._keep.append(i)
+        self._keep.append(ss)
         self._in_inst += 1
         try:
             for n, (fn, trig) in enumerate(list(facts)):
@@ -818,6 +890,7 @@ class Engine:
     def instantiate_all(self, k):
         """instantiate every recorded quantified fact at index term k (goal-directed instantiation)"""
         kid = k.t.get_id() if is_sym(k) else ("c", k)
+        self._keep.append(k)
         self._in_inst += 1
         try:
             for sid, facts in list(self.seq_facts.items()):
